@@ -140,7 +140,7 @@ def _seg_len(seg):
         if t.op == "agg" and t.a[0][0] == "array":
             return ("c", len(t.a[1]))
         return ("len", strip_sites(peel(t)))
-    if k == "b":
+    if k in ("b", "v1"):
         return ("c", 1)
     if k == "z":
         return seg[1]
@@ -251,6 +251,22 @@ def nf(ev, t, depth=0):
             return _tile_whole(buf, src, t)
         if n in ("slice::<impl [T]>::reverse",) and idx == 0:
             return [("rev", tuple(nf(ev, selfv, depth + 1)))]
+        if n in ("IndexMut::index_mut", "DerefMut::deref_mut", "Vec::<T, A>::as_mut_slice", "AsMut::as_mut", "slice::<impl [T]>::iter_mut") and idx == 0:
+            # handing out a `&mut` into the buffer does not change it (writes through the pointer are `store`s)
+            return nf(ev, selfv, depth + 1)
+        return [("?", strip_sites(t))]
+    if op == "store" and len(t.a) == 3:
+        # `buf[i] = v` through a pointer handed out by index_mut: one byte of the buffer is overwritten
+        old, place, val = t.a
+        place = peel(place)
+        if place.op == "call" and cname(place) in ("IndexMut::index_mut", "Index::index") and len(place.a[1]) == 2:
+            i = _const_int(place.a[1][1])
+            if i is not None:
+                buf = nf(ev, old, depth + 1)
+                c = _const_int(val)
+                seg = [("b", c)] if c is not None else [("v1", strip_sites(peel(val)))]
+                rng = T("agg", ("adt", "Range", "Range", ("start", "end")), (T("const", "int", i, "usize"), T("const", "int", i + 1, "usize")))
+                return _tile(buf, rng, seg, t)
         return [("?", strip_sites(t))]
     if op == "loop":
         hdr, loc, init = t.a
@@ -417,6 +433,11 @@ def _tile(buf, rng, src, orig):
     elif rk[0] == "range":
         d = _lin_sub(rk[2], rk[1])
         srclen = _unlin(d) if d is not None else srclen
+    if srclen is None and rk[0] == "from" and buf and buf[-1][0] == "z":
+        # dst = buf[a..] is everything after a; having returned, |src| is the length of that region
+        hl0 = _total_len(buf[:-1])
+        if hl0 is not None and _lin_eq(rk[1], hl0):
+            srclen = buf[-1][1]
     if srclen is None:
         return unk
     if len(src) == 1 and src[0][0] == "v" and rk[0] in ("to", "range"):
@@ -721,8 +742,10 @@ def int_form(t, wrap=False):
         # the length of a buffer after calls that write into it without resizing it is the length it was created with
         y = peel(x)
         for _ in range(8):
-            if y.op == "mutcall" and cname(y).split("::")[-1] in _LEN_PRESERVING:
+            if y.op == "mutcall" and cname(y).split("::")[-1] in _LEN_PRESERVING + ("index_mut", "deref_mut", "as_mut", "as_mut_slice"):
                 y = peel(y.a[2][y.a[1]])
+            elif y.op == "store" and len(y.a) == 3:
+                y = peel(y.a[0])  # an element written through a pointer into the buffer
             elif y.op == "call" and cname(y) in ("DerefMut::deref_mut", "Deref::deref", "AsMut::as_mut", "AsRef::as_ref", "Vec::<T, A>::as_mut_slice", "Vec::<T, A>::as_slice", "slice::<impl [T]>::to_vec", "Clone::clone") and len(y.a[1]) == 1:
                 y = peel(y.a[1][0])
             else:
@@ -804,6 +827,8 @@ def slice_form(x, wrap=False):
         if sb is not None:
             return sb
         bb = strip_sites(peel(b))
+        if peel(b).op in ("store", "mutcall"):
+            return (bb, ("c", 0), int_form(T("len", peel(b)), wrap))
         return (bb, ("c", 0), ("len", bb))
     if x.op == "call" and cname(x) in ("Index::index", "IndexMut::index_mut") and len(x.a[1]) == 2:
         rk = peel(x.a[1][1])
